@@ -167,6 +167,10 @@ def _run_threads_and_children(job, pidx, seq, ready, nthreads, children):
         p.start()
         _emit({"k": "started", "p": pidx, "c": cidx})
         procs.append(p)
+    if pidx == 0 and job.get("queries_off_at_start"):
+        import term_image
+
+        term_image.enable_queries()  # toggled back while everybody keeps calling
     stop.set()
     deadline = time.time() + job["stall_s"] + 5
     ok = True
@@ -232,6 +236,12 @@ def main():
     _emit({"k": "proc", "p": 0, "tty_fd": utils._tty_fd != -1, "wrapped": wrapped,
            "lock": type(utils._tty_lock).__module__})
     result = {"ok": False, "tty_fd": utils._tty_fd != -1, "wrapped": wrapped}
+    if job.get("queries_off_at_start"):
+        # configuration at the FIRST Process.start(): disable_queries() is in effect.  lock_tty is
+        # about terminal access, not only queries: the processes must exclude each other all the same
+        import term_image
+
+        term_image.disable_queries()
     if utils._tty_fd != -1 and wrapped:
         children = []
         nxt = job["children"] + 1
